@@ -111,7 +111,7 @@ let jvariant = ref jfixed
 let () =
   let rec go = function
     | "-jvariant" :: v :: r ->
-      jvariant := (match v with "seed3" -> jseed3 | "f11c" -> jf11c | _ -> jfixed); go r
+      jvariant := (match v with "seed3" -> jseed3 | "f11c" -> jf11c | "refs1" -> jrefs1 | _ -> jfixed); go r
     | _ :: r -> go r
     | [] -> () in
   go (Array.to_list Sys.argv)
